@@ -447,21 +447,17 @@ func TestVerifC15Sessions(t *testing.T) {
 			cls["client-pad-"+vf15Bucket(l.hello.PadLen, refss.MaxPad)] = true
 			resp := l.respond(vf15Fill(k, 1, refss.KeySize), alt, vf15Fill(k, 2, pad))
 			if mode == vf15ModeTamper {
-				lay := refss.Layout(pad)
-				type span struct {
-					name     string
-					from, to int
-				}
-				spans := []span{{"y", 0, lay.YEnd}, {"mark", lay.PadEnd, lay.MarkEnd}, {"mac", lay.MarkEnd, lay.End}}
+				fields := []refss.Field{refss.FieldY, refss.FieldMark, refss.FieldMAC}
 				if pad > 0 {
-					spans = append(spans, span{"pad", lay.YEnd, lay.PadEnd})
+					fields = append(fields, refss.FieldPad)
 				}
-				sp := spans[rapid.IntRange(0, len(spans)-1).Draw(rt, "tamperField")]
-				bit := rapid.IntRange(sp.from*8, sp.to*8-1).Draw(rt, "tamperBit")
-				resp = refss.FlipBit(resp, bit)
+				f := fields[rapid.IntRange(0, len(fields)-1).Draw(rt, "tamperField")]
+				from, to := refss.Layout(pad).Span(f)
+				bit := rapid.IntRange(0, (to-from)*8-1).Draw(rt, "tamperBit")
+				resp = refss.CorruptResponse(resp, f, bit)
 				l.tampered = true
-				cls["tamper-"+sp.name] = true
-				s.log = append(s.log, fmt.Sprintf("tamper(%s bit %d)", sp.name, bit))
+				cls["tamper-"+f.String()] = true
+				s.log = append(s.log, fmt.Sprintf("tamper(%v bit %d)", f, bit))
 			}
 			l.writeResponse(resp)
 		}
